@@ -13,7 +13,8 @@ import traceback
 sys.path.insert(0, os.path.dirname(os.path.dirname(os.path.abspath(__file__))))
 
 
-def replay(modname, cname, args, tier="thorough"):
+def replay(modname, cname, args, tier=None):
+    tier = tier or os.environ.get("VERIF_TIER", "quick")
     import importlib
 
     mod = importlib.import_module(modname)
